@@ -139,6 +139,21 @@ func runC28(c c28Case) (r vf.Result) {
 				clientDisc++
 			}
 		}
+		// while the client sleeps (Sleep call running, wake-up PINGREQ not sent yet) a DISCONNECT
+		// may be a duplicate of the reply and is rightly ignored
+		for _, cs := range s.Calls {
+			if cs.Call.API == "Sleep" && !cs.Finished() {
+				woke := false
+				for _, e := range s.ClientDatagrams() {
+					if e.Ns >= cs.StartNs && e.SN != nil && e.SN.Type == snref.PINGREQ && len(e.SN.ClientID) > 0 {
+						woke = true
+					}
+				}
+				if !woke {
+					return
+				}
+			}
+		}
 		if gwDiscSent+1 > clientDisc {
 			gwDisconnected = true
 		}
